@@ -17,6 +17,14 @@ import types
 VERIF = os.path.dirname(os.path.dirname(os.path.abspath(__file__)))
 REPO = os.environ.get('VERIF_REPO', '/repo')
 COQ = os.path.join(VERIF, 'coq')
+if 'VERIF_REPO' in os.environ and os.environ.get('VERIF_SHARED_COQ') != '1':
+    # a run against another tree (seeded changes) regenerates coq/Gen from THAT tree: it works on a private copy of the development, so that
+    # concurrent runs against different trees (and runs against /repo) never see each other's translation
+    import shutil as _sh0, tempfile as _tf0, atexit as _ae0
+    _priv = _tf0.mkdtemp(prefix='eolib-verif-coq-')
+    _sh0.copytree(COQ, os.path.join(_priv, 'coq'), ignore=_sh0.ignore_patterns('Cases'), symlinks=True)
+    COQ = os.path.join(_priv, 'coq')
+    _ae0.register(lambda: _sh0.rmtree(_priv, ignore_errors=True))
 # case files of this process (two runs of a check never share a file); removed at exit unless VERIF_KEEP_CASES=1
 CASES = os.path.join(COQ, 'Cases', f"p{os.getpid()}")
 
@@ -524,8 +532,10 @@ class Check:
         ev = dict(property_id=self.pid, tier=self.tier, seed=self.seed, level=level, coverage=self.cov,
                   assumptions=self.assumptions, wall_s=round(time.time() - self.t0, 2), violations=len(lines),
                   notes=self.notes, broken=self.broken[:20])
-        os.makedirs(os.path.join(VERIF, 'evidence'), exist_ok=True)
-        with open(os.path.join(VERIF, 'evidence', f"{self.pid}.json"), 'w') as f:
+        # evidence/ describes /repo; a run pointed at another tree (VERIF_REPO: seeded changes) keeps its evidence apart
+        evdir = os.path.join(VERIF, 'evidence' if 'VERIF_REPO' not in os.environ else '.other-tree-evidence')
+        os.makedirs(evdir, exist_ok=True)
+        with open(os.path.join(evdir, f"{self.pid}.json"), 'w') as f:
             json.dump(ev, f, indent=1, default=str)
         for l in lines:
             print(l)
